@@ -71,7 +71,7 @@ def load_known():
 
 
 def write_replay(prop, v):
-    d = os.path.join(VERIF, "evidence", "replay")
+    d = os.path.join(os.environ.get("VERIF_EVIDENCE_DIR") or os.path.join(VERIF, "evidence"), "replay")
     os.makedirs(d, exist_ok=True)
     name = re.sub(r"[^A-Za-z0-9_.-]+", "_", "%s-%s" % (prop, v.key))[:150] + ".json"
     p = os.path.join(d, name)
@@ -143,8 +143,9 @@ def finish(prop, tier, results, t0, level_note_assumptions, seed=0):
         "wall_s": round(time.time() - t0, 2),
         "violations": len(viol),
     }
-    os.makedirs(os.path.join(VERIF, "evidence"), exist_ok=True)
-    with open(os.path.join(VERIF, "evidence", "%s.json" % prop), "w") as fh:
+    evdir = os.environ.get("VERIF_EVIDENCE_DIR") or os.path.join(VERIF, "evidence")
+    os.makedirs(evdir, exist_ok=True)
+    with open(os.path.join(evdir, "%s.json" % prop), "w") as fh:
         json.dump(ev, fh, indent=1, default=str)
     print("%s [%s]: %d obligations, %d discharged, %d violation(s), %d known finding(s), %d checker error(s), %.1fs"
           % (prop, tier, obligations, discharged, len(viol), len(known_hit), len(errors), time.time() - t0))
